@@ -14,6 +14,15 @@ CLAIMED = {
  "C04": dict(level="exploration", tech="deterministic simulation: every signed artefact received by a simulated SP (callback POST/Redirect, attribute-query response, signed metadata) is verified by an independent exclusive-C14N/XML-DSig and HTTP-Redirect-signature verifier under the key version the storage handed to the signing request, across key rotation and interleaving",
    text="Seeded search; the verifying party is a different implementation than the signer, trusts the certificate of the key version current for that request, and checks the raw query string actually sent. Strings reaching signed content are workload (sampled), which is the thin part of this property for a simulator; an unsigned Success assertion reaching any party is a violation.",
    ref="§5 C04", note="Known finding: content needing canonical escaping breaks enveloped signatures (dependency amdonov/xmlsig); plain content is still verified."),
+ "C05": dict(level="exploration", tech="deterministic simulation: a conformant SP signs, a network attacker tampers in flight (bit flips, field edits after signing, signature stripping/wrapping, binding moves, algorithm and KeyInfo substitution, foreign keys), SP key rotation and requirement changes are interleaved; history invariant 'accepted ⊆ validly signed' decided by an independent verifier at the storage persist call",
+   text="Seeded search over SSO requests × signing-requirement matrix (SP AuthnRequestsSigned absent/false/0/true/1 × IdP WantAuthRequestsSigned ''/false/true/1 × certificate 0/1) × hostile in-flight operators (up to 3 per message), with SP re-registration (key rotation, requirement flips) racing the request. 'Accepted' is the successful CreateAuthRequest call; for each one the submitted bytes are re-verified by independent XML-DSig / redirect-signature verifiers under the certificate registered when the SP was looked up.",
+   ref="§5 C05", note="Known finding: an embedded ds:Signature in a Redirect-binding message is ignored. A receiver that re-encodes decoded query values is treated as verifying the same content."),
+ "C06": dict(level="exploration", tech="deterministic simulation: requests deviating from conformance in exactly the listed ways, stamped by SP clocks with skew and delivered by the browser at instants aimed at NotBefore/NotOnOrAfter (±1ns/µs/s) under the simulated clock; independent evaluator of the necessary conditions at the simulated-time interval of the accepting request",
+   text="Seeded search; only the implication accepted ⇒ valid is checked (the converse is C07). The evaluator decodes the submitted bytes itself (base64, DEFLATE, strict XML reader), checks Issuer against the registry snapshot the request saw, Destination against the advertised location for the request host, and the Conditions window against [t_invoke, t_return] of the simulated clock.",
+   ref="§5 C06", note="Known findings: three leniencies of Go's encoding/xml (duplicate attributes, undeclared prefixes, content outside the root element) are accepted although not well-formed."),
+ "C07": dict(level="exploration", tech="deterministic simulation, fault-free configuration plus post-fault recovery phase: a conformant SP generator (string templates, all serialisation freedoms, both bindings, SOAP, rsa-sha1/sha256, percent-encoding styles, KeyInfo layouts) drives the real handlers; bounded-progress oracle (accepted within its own request)",
+   text="Seeded search over conformant AuthnRequests, LogoutRequests and AttributeQueries of registered SPs with no fault active; each must be accepted within its own request (persist + 303, LogoutResponse Success, SOAP Response Success). The same oracle runs as the recovery phase after faulty runs of other families.",
+   ref="§5 C07", note="Known findings: lower-case percent-encoding in signed redirect requests and signed AttributeQueries are refused."),
  "C08": dict(level="exploration", tech="deterministic simulation: seeded SSO requests (conformant, deviating at each validation step, tampered, duplicated) against SP registrations with unsupported bindings, storage/body/writer fault injection, per-request persist count vs. independently decoded reply shape",
    text="Seeded search over SSO executions: per request the number of successful persists recorded by the simulated storage is compared with the shape of the single reply as decoded by an independent HTML/XML/redirect reader (303 to the login URL of the returned id, or exactly one non-Success Response / plain HTTP error; never empty, never several messages), under persist failures, body-read faults, duplicated submissions and interleaving with other requests.",
    ref="§5 C08", note="Trusts the simulator's storage (persist = successful CreateAuthRequest) and the independent reply decoders; writer-fault runs judge the persist count only."),
